@@ -181,6 +181,44 @@ func c20Set(tree any, p c20Path, v any) any {
 	return tree
 }
 
+// c20Delete removes the slot at p (map key or list element).
+func c20Delete(tree any, p c20Path) (any, bool) {
+	if len(p) == 0 {
+		return tree, false
+	}
+	if len(p) == 1 {
+		switch t := tree.(type) {
+		case map[string]any:
+			k := p[0].(string)
+			if _, ok := t[k]; !ok {
+				return tree, false
+			}
+			delete(t, k)
+			return t, true
+		case []any:
+			i := p[0].(int)
+			if i >= len(t) {
+				return tree, false
+			}
+			return append(append([]any{}, t[:i]...), t[i+1:]...), true
+		}
+		return tree, false
+	}
+	switch t := tree.(type) {
+	case map[string]any:
+		k := p[0].(string)
+		sub, ok := c20Delete(t[k], p[1:])
+		t[k] = sub
+		return t, ok
+	case []any:
+		i := p[0].(int)
+		sub, ok := c20Delete(t[i], p[1:])
+		t[i] = sub
+		return t, ok
+	}
+	return tree, false
+}
+
 func c20PathStr(p c20Path) string {
 	var s []string
 	for _, e := range p {
@@ -465,6 +503,15 @@ func c20Exec(x *engine.Ctx, cc any) {
 					}
 				}
 			}
+			c20RunWorld(x, c20World(d, text), []int{9, 9, 25}, what)
+			n++
+		}
+		// one more deviation: the slot is removed altogether (a key left out, a list entry dropped)
+		if tree, ok := c20Delete(c20Clone(d.Tree), p); ok {
+			text := c20Render(tree)
+			what := fmt.Sprintf("document %s, slot %s removed", d.Name, ps)
+			x.Nontrivial(fmt.Sprintf("slot %d %d del", c.Doc, c.Slot))
+			c20Protect(x, "", "ParseConfig: "+what, func() { config.ParseConfig(bytes.NewReader(text)) })
 			c20RunWorld(x, c20World(d, text), []int{9, 9, 25}, what)
 			n++
 		}
@@ -803,7 +850,7 @@ func init() {
 	register(&engine.Check{
 		ID:          "C20",
 		Level:       "exploration",
-		Rule:        "deviation-bounded enumeration from a valid corpus (the two *-example.yaml documents, examples/, the certificate/extension/profile schema test corpora read from /repo, and artifacts gopki produces): (1) every scalar and container slot of every corpus document replaced by each of 41 hostile values (empty, blank, 0, -1, 2^31, 2^63, 10^30, 1e400, 1.5, OIDs with over-long arcs / wrong first arcs / single arc, impossible dates, huge durations, malformed base64, wrong types, 100 kB string, NUL, emoji, null, [], {}, nested containers), the document placed as root with a child (or as profile of two entities) and run default; default; -a; thorough adds two deviations for all pairs among OID-, date- and raw-valued slots of the example documents; (2) byte level: every prefix and every offset x 8 bytes of the configuration texts through ParseConfig (quick: documents <=3 kB), every cut and offset x 7 bytes of generated PEM files, every offset x 6 byte values of the DER inside each PEM block re-armoured, through ReadPem and whole runs; 12 placements of the #HASH line x 32 strategies; (3) root and sub artifact each in 10 states (no file, empty, hash only, cert only, key only, CSR only, cert+key, cert+CSR, key+CSR, garbage) x 32 strategies followed by a default run, and the three-tier extension. Oracle: no panic / fatal error; an over-long OID arc in an OID-valued slot must make ParseConfig return an error. non-trivial = distinct mutated inputs executed",
+		Rule:        "deviation-bounded enumeration from a valid corpus (the two *-example.yaml documents, examples/, the certificate/extension/profile schema test corpora read from /repo, and artifacts gopki produces): (1) every scalar and container slot of every corpus document replaced by each of 41 hostile values (empty, blank, 0, -1, 2^31, 2^63, 10^30, 1e400, 1.5, OIDs with over-long arcs / wrong first arcs / single arc, impossible dates, huge durations, malformed base64, wrong types, 100 kB string, NUL, emoji, null, [], {}, nested containers) and by removal of the slot, the document placed as root with a child (or as profile of two entities) and run default; default; -a; thorough adds two deviations for all pairs among OID-, date- and raw-valued slots of the example documents; (2) byte level: every prefix and every offset x 8 bytes of the configuration texts through ParseConfig (quick: documents <=3 kB), every cut and offset x 7 bytes of generated PEM files, every offset x 6 byte values of the DER inside each PEM block re-armoured, through ReadPem and whole runs; 12 placements of the #HASH line x 32 strategies; (3) root and sub artifact each in 10 states (no file, empty, hash only, cert only, key only, CSR only, cert+key, cert+CSR, key+CSR, garbage) x 32 strategies followed by a default run, and the three-tier extension. Oracle: no panic / fatal error; an over-long OID arc in an OID-valued slot must make ParseConfig return an error. non-trivial = distinct mutated inputs executed",
 		Bound:       map[string]string{"deviations from the corpus": "1 (thorough: 2 for OID/date/raw slots)"},
 		Assumptions: []string{"'all byte strings' is unbounded; coverage-guided mutation is sampling and outside this technique: decided is exactly the deviation-bounded space", "fatal (unrecoverable) errors are attributed to the announced case"},
 		Budget:      budgets(quickBudget, thoroughBudget),
